@@ -27,7 +27,7 @@ CONSTANTS Thorough, Seed, NRand, NBatches, FastEvery
 Opts == JsonDeserialize("options.json")     \* sequence of [name, on, forms: Seq([s, v])]
 NOpts == Len(Opts)
 
-Dims == {"kinds", "shapes", "reqdef", "inc", "tdchain", "ids", "svc", "args", "throws", "ext", "names", "ann", "consts"}
+Dims == {"kinds", "shapes", "reqdef", "inc", "tdchain", "ids", "svc", "args", "throws", "ext", "names", "ann", "consts", "ns"}
 Dom == [d \in Dims |->
   CASE d = "kinds"   -> {"all", "typedef", "const", "enum", "struct", "union", "exception", "service"}
     [] d = "shapes"  -> {ToString(i) : i \in 0..(NBatches - 1)}
@@ -41,17 +41,18 @@ Dom == [d \in Dims |->
     [] d = "ext"     -> {"none", "local", "include"}
     [] d = "names"   -> {"plain", "keywords", "cases", "stems"}
     [] d = "ann"     -> {"none", "gotag", "repeated"}
-    [] d = "consts"  -> {"none", "scalars", "containers", "structs", "enums", "xinc"}]
+    [] d = "consts"  -> {"none", "scalars", "containers", "structs", "enums", "xinc"}
+    [] d = "ns"      -> {"plain", "none", "other", "upper", "keyword"}]
 
 Base == [d \in Dims |->
   CASE d = "kinds" -> "all" [] d = "shapes" -> "0" [] d = "reqdef" -> "mixed" [] d = "inc" -> "single"
     [] d = "tdchain" -> "0" [] d = "ids" -> "pos" [] d = "svc" -> "mixed" [] d = "args" -> "1" [] d = "throws" -> "1"
-    [] d = "ext" -> "none" [] d = "names" -> "plain" [] d = "ann" -> "none" [] d = "consts" -> "scalars"]
+    [] d = "ext" -> "none" [] d = "names" -> "plain" [] d = "ann" -> "none" [] d = "consts" -> "scalars" [] d = "ns" -> "plain"]
 
 Rich == [d \in Dims |->
   CASE d = "kinds" -> "all" [] d = "shapes" -> "0" [] d = "reqdef" -> "mixed" [] d = "inc" -> "diamond"
     [] d = "tdchain" -> "1" [] d = "ids" -> "mixed" [] d = "svc" -> "mixed" [] d = "args" -> "2" [] d = "throws" -> "2"
-    [] d = "ext" -> "include" [] d = "names" -> "plain" [] d = "ann" -> "gotag" [] d = "consts" -> "scalars"]
+    [] d = "ext" -> "include" [] d = "names" -> "plain" [] d = "ann" -> "gotag" [] d = "consts" -> "scalars" [] d = "ns" -> "plain"]
 
 \* a vector is meaningful when the dimensions that cannot matter sit at their Base value
 SvcDims == {"svc", "args", "throws", "ext"}
